@@ -117,7 +117,7 @@ class Built:
 
         for i, it in enumerate(self.items):
             k = it["kind"]
-            name = f"x{i}" if it.get("named", True) else ""
+            name = it.get("name", f"x{i}") if it.get("named", True) else ""
             init = list(self.val(0)) if it.get("mutable") else self.val(0)
             if k == "value":
                 n = lsl.Value(init, _name=name)
